@@ -93,6 +93,11 @@ pub fn pipe_with(content: &[u8]) -> File {
     File::from(std::os::fd::OwnedFd::from(reader))
 }
 
+/// thorough tier (VERIF_GRID_FULL=1): the families of cases that the quick tier samples are run in full
+pub fn full() -> bool { std::env::var("VERIF_GRID_FULL").map(|v| v == "1").unwrap_or(false) }
+/// true when case number `k` of a sampled family is left out (every `m`-th is kept in the quick tier, all of them in the thorough tier)
+pub fn left_out(k: usize, m: usize) -> bool { !full() && k % m != 0 }
+
 /// text contents -> bytes
 pub fn b(s: &str) -> Vec<u8> { s.as_bytes().to_vec() }
 
